@@ -80,7 +80,8 @@ def _single_fund_amount(pn, pa):
         return coin_(pa[0]) or coin_(pa[1])
     if pn not in ("eq", "ne") or len(pa) < 2:
         return False
-    one = lambda v: exact_origins(v) == {"info.funds[*].amount"} and all_origins(v) == {"info.funds[*].amount"}   # noqa: E731
+    one = lambda v: (exact_origins(v) == {"info.funds[*].amount"} and all_origins(v) == {"info.funds[*].amount"}) or \
+        (exact_origins(v) == {"info.funds[*]"} and all_origins(v) == {"info.funds[*]"})   # noqa: E731      (`fee == fund`: whole coins compared)
     return one(pa[0]) or one(pa[1])
 
 
@@ -195,6 +196,7 @@ def run(W, chk):
           if not {"info", "total_fees"} <= pn_:
               chk.skip("DEP-extra-funds", "named helpers", "helper signatures changed (%s); the entry-level CUT-create guards decide the clause" % sorted(pn_))
               raise StopIteration
+          dep |= {o + f for o in dep & {"info.funds[*]", "total_fees[*]"} for f in (".denom", ".amount")}      # a whole coin compared covers both fields
           chk.expect(need <= dep, "DEP-extra-funds", "validate_no_additional_funds_sent_with_pool_creation",
                      "accept/reject depends on each fund coin's denom and amount and on each expected fee's denom and amount",
                      "the extra-funds decision does not depend on %s (it cannot reject a surplus coin it never looks at)" % sorted(need - dep),
@@ -204,7 +206,7 @@ def run(W, chk):
           eqs = []
           for e in H.switches():
               for a in e.vals[0].atoms:
-                  if isinstance(a[0], tuple) and a[0][0] == "pred" and a[0][1] == "eq":
+                  if isinstance(a[0], tuple) and a[0][0] == "pred" and a[0][1] in ("eq", "ne"):
                       l = {o for (o, ops) in H.I.flat(H.store, a[0][2])}
                       r = {o for (o, ops) in H.I.flat(H.store, a[0][3])}
                       eqs.append((l, r))
